@@ -554,3 +554,55 @@ def r14_10_flag_bytes(ctx: Ctx) -> RuleResult:
                 else:
                     rr.ok({"class": c.name, "field": fld, "bit": comp["low"]})
     return rr
+
+
+@rule("C14")
+def r14_11_zigzag_pair(ctx: Ctx) -> RuleResult:
+    """Signed counts are zigzag-coded: write_signed_count hands `enc(count)` to the varint writer, read_signed_count returns
+    `dec(value)`.  The two expressions are evaluated (tiny integer evaluator, no code is run) for every count in [-70000, 70000]
+    and at the powers of two up to the 32-bit edges: dec(enc(c)) == c and enc(c) >= 0 (a varint cannot carry a negative number)
+    - whatever the expressions look like."""
+    from ..kit import eval_int_expr, own_nodes
+
+    rr = RuleResult("R14.11", "zigzag coding of signed counts: decoder(encoder(c)) == c and encoder(c) >= 0 on [-70000, 70000] and the 32-bit edges", min_instances=1)
+    M = ctx.M
+    w = M.func("_DateTimeZoneWriter.write_signed_count", required=True)
+    r = M.func("_DateTimeZoneReader.read_signed_count", required=True)
+    from ..kit import inline_locals
+
+    wcalls = [n for n in own_nodes(w.node) if isinstance(n, ast.Call) and unparse(n.func).endswith("write_varint") and n.args]
+    rrets = [n.value for n in own_nodes(r.node) if isinstance(n, ast.Return) and n.value is not None]
+    rr.inst()
+    if len(wcalls) != 1 or len(rrets) != 1:
+        rr.fail(w.qual, "write_signed_count / read_signed_count are not a single varint write / a single return expression (not evaluated)", ctx.loc(w))
+        return rr
+    enc = inline_locals(w.node, wcalls[0].args[0])
+    dec = rrets[0]
+    pw = w.value_params[0].arg
+    # the reader's local holding the raw varint
+    rv = next((t.id for n in own_nodes(r.node) if isinstance(n, ast.Assign) and isinstance(n.value, ast.Call) and unparse(n.value.func).endswith("read_varint") for t in n.targets if isinstance(t, ast.Name)), None)
+    if rv is None:
+        rr.fail(r.qual, "read_signed_count does not read one varint into a local", ctx.loc(r))
+        return rr
+    sample = list(range(-70000, 70001)) + [s * (1 << k) + d for k in range(17, 32) for s in (1, -1) for d in (-1, 0, 1)]
+    bad = None
+    for cval in sample:
+        if not -(1 << 31) <= cval <= (1 << 31) - 1:
+            continue
+        e = eval_int_expr(enc, {pw: cval}, lambda x: M.fold(x, w.cls, w.mod))
+        if e is None:
+            bad = (cval, "encoder expression not evaluable")
+            break
+        if e < 0:
+            bad = (cval, f"encodes to the negative number {e}")
+            break
+        d = eval_int_expr(dec, {rv: e}, lambda x: M.fold(x, r.cls, r.mod))
+        if d != cval:
+            bad = (cval, f"is written as {e} and read back as {d}")
+            break
+    rr.states += len(sample)
+    if bad is None:
+        rr.ok({"encoder": unparse(enc), "decoder": unparse(dec), "values": len(sample)})
+    else:
+        rr.fail(w.qual, f"signed count {bad[0]} {bad[1]} (encoder `{unparse(enc)}`, decoder `{unparse(dec)}`)", ctx.loc(w, wcalls[0]))
+    return rr
